@@ -10,6 +10,16 @@ package main
 //         concurrently, each at its own pace, with readers of different
 //         speeds (fast, jittery, bursty, stalled).
 //
+// Connections need not all exist from the start: a connection whose script
+// has an "open" operation connects (its ServeNostr is started) only then --
+// in a det script at that point of the script, in a conc case when every
+// client of the first generation has finished its script (connection
+// churn on one router).  A "disc" with st=true is the disconnect of a client
+// that has stopped reading: what is still pending for it is never read (in a
+// det script a paused reader is not resumed first; in a conc case it is
+// executed at the end of the connection's generation, when the deliveries of
+// the others have piled up).
+//
 // Both record a timed history: a global monotone clock is read before an
 // operation is handed to the relay, after its reply has been received, and
 // after every message a connection receives.  No verdict is taken here, and
@@ -31,13 +41,14 @@ import (
 
 type c07Op struct {
 	C   int              `json:"c"`
-	O   string           `json:"o"` // req close count event disc pause resume
+	O   string           `json:"o"` // req close count event disc pause resume open
 	Sub string           `json:"sub,omitempty"`
 	Fs  []common.JFilter `json:"fs,omitempty"`
 	E   *common.JEvent   `json:"e,omitempty"`
 	B   int64            `json:"b"`
 	D   *int64           `json:"d"`
 	X   bool             `json:"x,omitempty"` // det: the client disconnects right after sending this operation
+	St  bool             `json:"st,omitempty"` // disc: the client has stopped reading and goes away without reading what is pending
 }
 
 type c07Msg struct {
@@ -131,6 +142,7 @@ type c07Session struct {
 	out      []c07Msg
 	reader   c07Reader
 	sdone    atomic.Bool // the client's script is over
+	started  bool // ServeNostr is running / has run (driver only)
 	paused   bool // touched by the driver only
 	gone     bool // disconnected (driver only)
 	dead     bool // a wait expired on this session (driver / its own client only)
@@ -167,9 +179,27 @@ func (w *c07World) newSession(idx int, rd c07Reader) *c07Session {
 		rdDone:   make(chan struct{}),
 		reader:   rd,
 	}
-	go func() { s.done <- w.router.ServeNostr(ctx, s.send, s.recv) }()
-	go s.readLoop()
 	return s
+}
+
+// start connects the session: from here on its ServeNostr runs on the shared router.
+func (s *c07Session) start() {
+	if s.started {
+		return
+	}
+	s.started = true
+	go func() { s.done <- s.w.router.ServeNostr(s.ctx, s.send, s.recv) }()
+	go s.readLoop()
+}
+
+// open connects a late session and records when.
+func (s *c07Session) open() {
+	if s.started {
+		return
+	}
+	b := s.w.tick()
+	s.start()
+	s.w.addHop(c07Op{C: s.idx, O: "open", B: b})
 }
 
 func (s *c07Session) readLoop() {
@@ -356,6 +386,7 @@ func (s *c07Session) exec(op c07Op) {
 		}
 		w.addHop(h)
 	case "disc":
+		h.St = op.St
 		h.B = w.tick()
 		s.cancel()
 		t := time.NewTimer(c07Timeout())
@@ -418,6 +449,12 @@ func c07Filters1(authors ...string) []common.JFilter {
 func (w *c07World) finish(c *c07Case) {
 	w.fast.Store(true)
 	for _, s := range w.ss {
+		// every connection of the case exists by the end
+		if !s.started && !w.stuck.Load() {
+			s.open()
+		}
+	}
+	for _, s := range w.ss {
 		if s.paused && !s.gone {
 			s.resume()
 			w.addHop(c07Op{C: s.idx, O: "resume", B: w.tick()})
@@ -427,7 +464,7 @@ func (w *c07World) finish(c *c07Case) {
 	var open []*c07Session
 	if !w.stuck.Load() {
 		for _, s := range w.ss {
-			if !s.gone && !s.dead {
+			if s.started && !s.gone && !s.dead {
 				s.exec(c07Op{O: "req", Sub: c07FlushSub, Fs: c07Filters1(c07FlushPK)})
 				if !s.dead {
 					open = append(open, s)
@@ -501,7 +538,7 @@ func (w *c07World) finish(c *c07Case) {
 	}
 	if !w.stuck.Load() {
 		for _, s := range w.ss {
-			if !s.gone {
+			if s.started && !s.gone {
 				t := time.NewTimer(2 * time.Second)
 				select {
 				case <-s.done:
@@ -538,6 +575,24 @@ func c07NewWorld(c *c07Case) *c07World {
 		}
 		w.ss = append(w.ss, w.newSession(i, rd))
 	}
+	late := map[int]bool{}
+	for _, op := range c.Script {
+		if op.O == "open" {
+			late[op.C] = true
+		}
+	}
+	for i, sc := range c.Scripts {
+		for _, op := range sc {
+			if op.O == "open" {
+				late[i] = true
+			}
+		}
+	}
+	for i, s := range w.ss {
+		if !late[i] {
+			s.start()
+		}
+	}
 	return w
 }
 
@@ -552,7 +607,14 @@ func c07RunDet(c *c07Case) {
 			continue
 		}
 		s := w.ss[op.C]
-		if s.gone || s.dead {
+		if op.O == "open" {
+			if !s.started {
+				s.open()
+				w.settle(250*time.Microsecond, 15*time.Millisecond)
+			}
+			continue
+		}
+		if !s.started || s.gone || s.dead {
 			continue
 		}
 		switch op.O {
@@ -579,7 +641,7 @@ func c07RunDet(c *c07Case) {
 				s.exec(c07Op{O: "count", Sub: c07AckSub, Fs: c07Filters1("~")})
 			}
 		case "disc":
-			if s.paused {
+			if s.paused && !op.St {
 				s.resume()
 				w.addHop(c07Op{C: s.idx, O: "resume", B: w.tick()})
 				w.settle(200*time.Microsecond, 5*time.Millisecond)
@@ -597,39 +659,75 @@ func c07RunDet(c *c07Case) {
 }
 
 // ---- concurrent layer
+//
+// Two generations: the connections without an "open" operation exist from the
+// start and run their scripts concurrently; when all of them are through, the
+// clients that have stopped reading and leave (final "disc" with st) are
+// disconnected, and then the connections with an "open" operation connect to
+// the same router and run theirs.
 func c07RunConc(c *c07Case) {
 	w := c07NewWorld(c)
-	var wg sync.WaitGroup
-	startCh := make(chan struct{})
-	for i := range w.ss {
-		if i >= len(c.Scripts) {
-			break
-		}
-		wg.Add(1)
-		go func(s *c07Session, script []c07Op) {
-			defer wg.Done()
-			defer s.sdone.Store(true)
-			pr := common.NewRand(uint64(s.reader.Seed)*31 + 7)
-			<-startCh
-			for _, op := range script {
-				if s.gone || s.dead || w.stuck.Load() {
-					return
-				}
-				switch s.reader.Pace {
-				case 1:
-					time.Sleep(0)
-				case 2:
-					time.Sleep(time.Duration(pr.Intn(120)) * time.Microsecond)
-				}
-				switch op.O {
-				case "req", "close", "count", "event", "disc":
-					s.exec(op)
-				}
+	for gen := 0; gen < 2; gen++ {
+		var wg sync.WaitGroup
+		startCh := make(chan struct{})
+		var leavers []*c07Session
+		for i := range w.ss {
+			if i >= len(c.Scripts) {
+				break
 			}
-		}(w.ss[i], c.Scripts[i])
+			s := w.ss[i]
+			script := c.Scripts[i]
+			if gen == 0 && !s.started {
+				continue
+			}
+			if gen == 1 {
+				if s.started || w.stuck.Load() {
+					continue
+				}
+				// what precedes "open" in the script of a connection that does not exist yet is void
+				for k, op := range script {
+					if op.O == "open" {
+						script = script[k+1:]
+						break
+					}
+				}
+				s.open()
+			}
+			if n := len(script); n > 0 && script[n-1].O == "disc" && script[n-1].St {
+				script = script[:n-1]
+				leavers = append(leavers, s)
+			}
+			wg.Add(1)
+			go func(s *c07Session, script []c07Op) {
+				defer wg.Done()
+				defer s.sdone.Store(true)
+				pr := common.NewRand(uint64(s.reader.Seed)*31 + 7)
+				<-startCh
+				for _, op := range script {
+					if s.gone || s.dead || w.stuck.Load() {
+						return
+					}
+					switch s.reader.Pace {
+					case 1:
+						time.Sleep(0)
+					case 2:
+						time.Sleep(time.Duration(pr.Intn(120)) * time.Microsecond)
+					}
+					switch op.O {
+					case "req", "close", "count", "event", "disc":
+						s.exec(op)
+					}
+				}
+			}(s, script)
+		}
+		close(startCh)
+		wg.Wait()
+		for _, s := range leavers {
+			if !s.gone && !s.dead && !w.stuck.Load() {
+				s.exec(c07Op{O: "disc", St: true})
+			}
+		}
 	}
-	close(startCh)
-	wg.Wait()
 	w.finish(c)
 }
 
@@ -719,7 +817,8 @@ func c07GenDet(r *common.Rand) c07Case {
 			}
 			c.Script = append(c.Script, c07Op{C: x, O: "count", Sub: common.Pick(r, c07Subs), Fs: c07GenFilters(r, u)})
 		case k < 85:
-			c.Script = append(c.Script, c07Op{C: x, O: "disc"})
+			// a client that has stopped reading mostly goes away without reading what is pending
+			c.Script = append(c.Script, c07Op{C: x, O: "disc", St: paused[x] && r.Chance(60)})
 			alive[x] = false
 		case k < 93:
 			if !paused[x] {
@@ -801,12 +900,193 @@ func c07GenConc(r *common.Rand) c07Case {
 	return c
 }
 
+// c07GenFiltersWide: as c07GenFilters, but more often a filter that matches everything
+func c07GenFiltersWide(r *common.Rand, u common.Universe) []common.JFilter {
+	if r.Chance(55) {
+		return []common.JFilter{{}}
+	}
+	return c07GenFilters(r, u)
+}
+
+// c07GenChurn: connection churn on one router (a det script).  A first
+// generation of 2..5 connections subscribes; some of them stop reading while
+// the others keep publishing, and leave -- mostly without ever reading what had
+// piled up for them; 1..3 further connections connect only later ("open"),
+// typically after somebody has left, subscribe (the same few subscription
+// ids) and take part.  A weighted random walk, not a fixed scenario: every
+// operation is drawn, only the weights favour stall -> publish -> leave -> join.
+func c07GenChurn(r *common.Rand) c07Case {
+	n1 := 2 + r.Intn(4)
+	nLate := 1 + r.Intn(3)
+	c := c07Case{K: "det", NC: n1 + nLate, Buf: 1 + r.Intn(3)}
+	nops := 14 + r.Intn(24)
+	u := c07Universe(nops / 3)
+	born := make([]bool, c.NC)
+	alive := make([]bool, c.NC)
+	paused := make([]bool, c.NC)
+	nsub := make([]int, c.NC)
+	for i := 0; i < n1; i++ {
+		born[i], alive[i] = true, true
+	}
+	left := 0
+	nev := 0
+	pick := func(ok func(x int) bool) int {
+		var xs []int
+		for x := 0; x < c.NC; x++ {
+			if ok(x) {
+				xs = append(xs, x)
+			}
+		}
+		if len(xs) == 0 {
+			return -1
+		}
+		return xs[r.Intn(len(xs))]
+	}
+	active := func(x int) bool { return alive[x] && !paused[x] }
+	for tries := 0; len(c.Script) < nops && tries < 40*nops; tries++ {
+		k := r.Intn(100)
+		if len(c.Script) < n1 && r.Chance(80) {
+			k = 0
+		}
+		switch {
+		case k < 20:
+			x := pick(func(x int) bool { return active(x) && (len(c.Script) >= n1 || nsub[x] == 0) })
+			if x < 0 {
+				x = pick(active)
+			}
+			if x < 0 {
+				continue
+			}
+			c.Script = append(c.Script, c07Op{C: x, O: "req", Sub: common.Pick(r, c07Subs), Fs: c07GenFiltersWide(r, u)})
+			nsub[x]++
+		case k < 50:
+			x := pick(active)
+			if x < 0 {
+				continue
+			}
+			e := u.Event(r, nev)
+			nev++
+			c.Script = append(c.Script, c07Op{C: x, O: "event", E: &e})
+		case k < 64:
+			// a subscriber stops reading; somebody who can still publish remains
+			n := 0
+			for x := range alive {
+				if active(x) {
+					n++
+				}
+			}
+			x := pick(func(x int) bool { return active(x) && nsub[x] > 0 })
+			if x < 0 || n < 2 {
+				continue
+			}
+			c.Script = append(c.Script, c07Op{C: x, O: "pause"})
+			paused[x] = true
+		case k < 78:
+			x := pick(func(x int) bool { return alive[x] && paused[x] })
+			if x < 0 || r.Chance(20) {
+				x = pick(func(x int) bool { return alive[x] })
+			}
+			if x < 0 {
+				continue
+			}
+			c.Script = append(c.Script, c07Op{C: x, O: "disc", St: paused[x] && r.Chance(80)})
+			alive[x] = false
+			left++
+		case k < 90:
+			x := pick(func(x int) bool { return !born[x] })
+			if x < 0 || (left == 0 && !r.Chance(25)) {
+				continue
+			}
+			c.Script = append(c.Script, c07Op{C: x, O: "open"})
+			born[x], alive[x] = true, true
+			if r.Chance(75) {
+				c.Script = append(c.Script, c07Op{C: x, O: "req", Sub: common.Pick(r, c07Subs), Fs: c07GenFiltersWide(r, u)})
+				nsub[x]++
+			}
+		case k < 94:
+			x := pick(active)
+			if x < 0 {
+				continue
+			}
+			c.Script = append(c.Script, c07Op{C: x, O: "close", Sub: common.Pick(r, c07Subs)})
+		case k < 96:
+			x := pick(active)
+			if x < 0 {
+				continue
+			}
+			c.Script = append(c.Script, c07Op{C: x, O: "count", Sub: common.Pick(r, c07Subs), Fs: c07GenFilters(r, u)})
+		default:
+			x := pick(func(x int) bool { return alive[x] && paused[x] })
+			if x < 0 {
+				continue
+			}
+			c.Script = append(c.Script, c07Op{C: x, O: "resume"})
+			paused[x] = false
+		}
+	}
+	// whoever has not connected yet does so at the end, and subscribes
+	for x := 0; x < c.NC; x++ {
+		if !born[x] {
+			c.Script = append(c.Script, c07Op{C: x, O: "open"},
+				c07Op{C: x, O: "req", Sub: common.Pick(r, c07Subs), Fs: c07GenFiltersWide(r, u)})
+		}
+	}
+	return c
+}
+
+// c07AddGeneration: a conc case gets a second generation -- some stalled
+// subscribers of the first leave at its end with their deliveries pending, and
+// 1..3 new connections connect afterwards and run scripts of their own.
+func c07AddGeneration(r *common.Rand, c *c07Case) {
+	for x := range c.Scripts {
+		if c.Readers[x].Mode == 3 && r.Chance(75) {
+			c.Scripts[x] = append(c.Scripts[x], c07Op{C: x, O: "disc", St: true})
+		}
+	}
+	u := c07Universe(6)
+	n2 := 1 + r.Intn(3)
+	for j := 0; j < n2; j++ {
+		x := c.NC
+		c.NC++
+		rd := c07Reader{Mode: []int{0, 0, 1, 2}[r.Intn(4)], Seed: r.Intn(1 << 20), Pace: r.Intn(3)}
+		sc := []c07Op{{C: x, O: "open"}}
+		n := 2 + r.Intn(7)
+		for i := 0; i < n; i++ {
+			k := r.Intn(100)
+			if i == 0 && r.Chance(70) {
+				k = 0
+			}
+			switch {
+			case k < 40:
+				sc = append(sc, c07Op{C: x, O: "req", Sub: common.Pick(r, c07Subs), Fs: c07GenFiltersWide(r, u)})
+			case k < 85:
+				e := u.Event(r, -1)
+				e.ID = fmt.Sprintf("id%d_g%d", x, i)
+				sc = append(sc, c07Op{C: x, O: "event", E: &e})
+			case k < 95:
+				sc = append(sc, c07Op{C: x, O: "close", Sub: common.Pick(r, c07Subs)})
+			default:
+				sc = append(sc, c07Op{C: x, O: "count", Sub: common.Pick(r, c07Subs), Fs: c07GenFilters(r, u)})
+			}
+		}
+		c.Scripts = append(c.Scripts, sc)
+		c.Readers = append(c.Readers, rd)
+	}
+}
+
 func c07Gen(root *common.Rand, i int) c07Case {
 	r := root.Fork(uint64(i))
-	if i%5 < 3 {
+	switch {
+	case i%10 == 7 || i%20 == 2:
+		return c07GenChurn(r)
+	case i%5 < 3:
 		return c07GenDet(r)
 	}
-	return c07GenConc(r)
+	c := c07GenConc(r)
+	if r.Chance(30) {
+		c07AddGeneration(r, &c)
+	}
+	return c
 }
 
 // c07Pool runs cases i = start..n-1 on a few workers (each case has its own
